@@ -118,7 +118,8 @@ Proof.
   - (* EMember *)
     cbn [printable] in Hp. apply andb_true_iff in Hp as [Hp1 Hp3].
     apply andb_true_iff in Hp1 as [_ Hp2].
-    cbn [groupify write_expr]. destruct c; norm_prun; rewrite (IHe1 Hp2), ?(IHe2 Hp3); reflexivity.
+    cbn [groupify write_expr]. rewrite is_decimal_int_groupify.
+    destruct c; norm_prun; rewrite (IHe1 Hp2), ?(IHe2 Hp3); reflexivity.
   - (* EAssign *)
     cbn [printable] in Hp. apply andb_true_iff in Hp as [Hp1 Hp3].
     apply andb_true_iff in Hp1 as [_ Hp2].
@@ -398,10 +399,13 @@ Proof.
   - exact (AH_list args IHa Hp3 Hl3 Hc2 Hs2).
 Qed.
 
+Lemma obj_ok_groupify e : obj_ok (groupify e) = obj_ok e.
+Proof. destruct e; reflexivity. Qed.
+
 Lemma A_member t o p c : AH o -> AH p -> AH (EMember t o p c).
 Proof.
   intros IHo IHp Hp Hl Hc Hs. cbn [printable lexical] in Hp, Hl.
-  apply andb_true_iff in Hp as [Hp Hp3]. apply andb_true_iff in Hp as [_ Hp2].
+  apply andb_true_iff in Hp as [Hp Hp3]. apply andb_true_iff in Hp as [Hpc Hp2].
   apply andb_true_iff in Hl as [Hl1 Hl].
   cbn [tmap_expr] in Hc. injection Hc as Hct Hc1 Hc2.
   rewrite etoks_member in Hs. apply lts_app in Hs as [Hs1 Hs2]. apply lts_cons in Hs2 as [_ Hs2].
@@ -421,6 +425,7 @@ Proof.
     + rewrite (ec_comments _ Hct). exact NLF_nil.
     + exact Hl3.
     + rewrite (ec_comments _ Hc2). exact NLF_nil.
+    + rewrite obj_ok_groupify. apply obj_ok_prec; assumption.
     + exact Jo.
 Qed.
 
@@ -643,8 +648,9 @@ Proof.
     intro E. rewrite E in H3. discriminate H3.
   - (* EFloat *)
     cbn [lexical] in Hl. apply andb_true_iff in Hl as [_ H3]. pose proof (go_float_last _ H3) as D.
-    do 2 apply ends_good_cons. apply ends_good_one. split; [|exact (digit_nsp _ D)].
-    intro E. rewrite E in D. discriminate D.
+    do 2 apply ends_good_cons. apply ends_good_one. split.
+    + intro E. rewrite E in D. destruct D as [D|D]; discriminate D.
+    + destruct D as [D|D]; [exact (digit_nsp _ D)|rewrite D; reflexivity].
   - (* EString *) eg_tac.
   - (* ERaw *) eg_tac.
   - (* EBool *)
@@ -770,7 +776,8 @@ Proof.
     apply andb_true_iff in Hl as [Hl1 Hl]. pose proof (IHe1 Hl1) as G1.
     destruct c.
     + apply andb_true_iff in Hl as [_ Hl3]. pose proof (IHe2 Hl3) as G2. ns_tac. reflexivity.
-    + apply andb_true_iff in Hl as [_ Hl3]. destruct e2; try discriminate Hl3. ns_tac. reflexivity.
+    + apply andb_true_iff in Hl as [_ Hl3]. destruct e2; try discriminate Hl3.
+      destruct (is_decimal_int e1); ns_tac; reflexivity.
   - (* EAssign *)
     apply andb_true_iff in Hl as [Hl Hl3]. apply andb_true_iff in Hl as [_ Hl2].
     pose proof (IHe1 Hl2) as G1. pose proof (IHe2 Hl3) as G2. ns_tac. reflexivity.
@@ -849,7 +856,7 @@ Proof.
     rewrite !app_nil_r. reflexivity.
 Qed.
 
-Lemma kont_semi_text semis : kont (semi_text semis).
+Lemma kont_semi_text {g} semis : kont g (semi_text semis).
 Proof. destruct semis; [apply kont_cons; [reflexivity|discriminate]|apply kont_nil]. Qed.
 
 Lemma rta_semi_text semis : rta (semi_text semis) [] = semi_text semis.
